@@ -396,11 +396,17 @@ func (ps *PubSub) Channels() []string {
 		return nil
 	}
 
+	// every channel is listed once, however many connections subscribed to it
 	var channels []string
+	seen := make(map[string]struct{})
 	for _, sconn := range ps.conns {
 		sconn.mu.Lock()
 		for ient := range sconn.entries {
-			if !ient.pattern {
+			if ient.pattern {
+				continue
+			}
+			if _, ok := seen[ient.channel]; !ok {
+				seen[ient.channel] = struct{}{}
 				channels = append(channels, ient.channel)
 			}
 		}
@@ -418,11 +424,17 @@ func (ps *PubSub) ChannelsWithPatterns(pattern string) []string {
 		return nil
 	}
 
+	// only channels are listed (not the patterns of PSUBSCRIBE), each one once
 	var channels []string
+	seen := make(map[string]struct{})
 	for _, sconn := range ps.conns {
 		sconn.mu.Lock()
 		for ient := range sconn.entries {
-			if match.Match(ient.channel, pattern) {
+			if ient.pattern || !match.Match(ient.channel, pattern) {
+				continue
+			}
+			if _, ok := seen[ient.channel]; !ok {
+				seen[ient.channel] = struct{}{}
 				channels = append(channels, ient.channel)
 			}
 		}
